@@ -172,7 +172,7 @@ def _nets_of(m):
     nets = {}
     for p in m["ports"]:
         if p["alias"] is None:
-            nets[p["name"]] = (0, p["w"])
+            nets[p["name"]] = (p.get("lsb", 0), p["w"])
         else:
             for a in p["alias"]:
                 nets[a] = (0, 1)
@@ -430,6 +430,13 @@ def w_attrs(L, attrs):
     L.out.append("*"); L.out.append(")"); L._last_word = False
 
 
+def w_decl_range(L, m, name, msb, lsb):
+    if name in m.get("asc", ()):
+        w_range(L, lsb, msb)
+    else:
+        w_range(L, msb, lsb)
+
+
 def w_module(L, m):
     w_attrs(L, m["attrs"])
     L.kw("module"); L.name(m["name"])
@@ -461,7 +468,7 @@ def w_module(L, m):
         elif m["style"] == "ansi":
             L.kw(p["dir"])
             if p["ranged"]:
-                w_range(L, p["w"] - 1, 0)
+                w_decl_range(L, m, p["name"], p.get("lsb", 0) + p["w"] - 1, p.get("lsb", 0))
             L.name(p["name"])
         else:
             L.name(p["name"])
@@ -472,7 +479,7 @@ def w_module(L, m):
             w_attrs(L, w["attrs"])
             L.kw(w["type"])
             if w["ranged"]:
-                w_range(L, w["msb"], w["lsb"])
+                w_decl_range(L, m, w["name"], w["msb"], w["lsb"])
             L.name(w["name"]); L.p(";")
         elif d[0] == "port":
             p = m["ports"][d[1]]
@@ -480,7 +487,7 @@ def w_module(L, m):
             if p["vtype"]:
                 L.kw(p["vtype"])
             if p["ranged"]:
-                w_range(L, p["w"] - 1, 0)
+                w_decl_range(L, m, p["name"], p.get("lsb", 0) + p["w"] - 1, p.get("lsb", 0))
             L.name(p["name"]); L.p(";")
         else:
             p = m["ports"][d[1]]
@@ -543,31 +550,37 @@ def render(design, rng, comments=True):
 DIRMAP = {"input": "IN", "output": "OUT", "inout": "INOUT", None: "UNDEFINED"}
 
 
-def eval_atom(a, nets):
-    """MSB-first list of (cable, index)"""
+def eval_atom(a, nets, asc=()):
+    """MSB-first list of (cable, index); `asc`: names of nets declared with an ascending range [lo:hi]
+    (their most significant bit is the one with the lowest index)"""
     k = a[0]
     if k == "const":
         return [(CONST_NAME[a[1]], 0)]
     lsb, w = nets[a[1]]
+    up = a[1] in asc
     if k == "id":
-        return [(a[1], i) for i in range(lsb + w - 1, lsb - 1, -1)]
+        idx = list(range(lsb + w - 1, lsb - 1, -1))
+        return [(a[1], i) for i in (reversed(idx) if up else idx)]
     if k == "bit":
         assert lsb <= a[2] < lsb + w
         return [(a[1], a[2])]
     hi, lo = max(a[2], a[3]), min(a[2], a[3])
     assert lsb <= lo and hi < lsb + w
-    return [(a[1], i) for i in range(hi, lo - 1, -1)]
+    if hi != lo:
+        assert (a[2] < a[3]) == up, "part-select against the declared direction"
+    idx = list(range(hi, lo - 1, -1))
+    return [(a[1], i) for i in (reversed(idx) if up else idx)]
 
 
-def eval_expr(e, nets):
+def eval_expr(e, nets, asc=()):
     if e is None:
         return []
     if isinstance(e, dict):
         out = []
         for a in e["cat"]:
-            out.extend(eval_atom(a, nets))
+            out.extend(eval_atom(a, nets, asc))
         return out
-    return eval_atom(e, nets)
+    return eval_atom(e, nets, asc)
 
 
 def expr_consts(e):
@@ -592,23 +605,25 @@ def denote(design):
                 nets = _nets_full(m)
                 for pn, e in it["conns"]:
                     assert pn is not None, "positional map on a never-declared module is outside the domain"
-                    b[pn] = max(b.get(pn, 0), max(1, len(eval_expr(e, nets))))
+                    b[pn] = max(b.get(pn, 0), max(1, len(eval_expr(e, nets, set(m.get("asc", ()))))))
     out = {"top": design["top"], "defs": {}}
     for m in design["modules"]:
         nets = _nets_full(m)
+        asc = set(m.get("asc", ()))
         D = {"lib": "hdi_primitives" if m["kind"] == "prim" else "work", "primitive": False,
              "ports": {}, "port_order": [p["name"] for p in m["ports"]], "cables": {}, "insts": {}, "assigns": [],
              "params": dict((k, v) for k, v in m["params"]), "attrs": dict((k, v) for k, v in m["attrs"]),
              "cable_attrs": {}, "cable_types": {}}
         for p in m["ports"]:
             if p["alias"] is None:
-                pins = [(p["name"], k) for k in range(p["w"])]
+                pins = [(p["name"], p.get("lsb", 0) + k) for k in range(p["w"])]
             else:
                 bits = []
                 for a in p["alias"]:
                     bits.append((a, 0))
                 pins = list(reversed(bits))
-            D["ports"][p["name"]] = {"dir": DIRMAP[p["dir"]], "width": p["w"], "lower": 0, "pins": pins}
+            D["ports"][p["name"]] = {"dir": DIRMAP[p["dir"]], "width": p["w"],
+                                     "lower": p.get("lsb", 0) if p["alias"] is None else 0, "pins": pins}
         for n, (lsb, w) in nets.items():
             D["cables"][n] = [lsb, w]
         for w in m["wires"]:
@@ -622,7 +637,7 @@ def denote(design):
             continue
         for it in m["body"]:
             if it["t"] == "assign":
-                lb, rb = eval_atom(it["l"], nets), eval_atom(it["r"], nets)
+                lb, rb = eval_atom(it["l"], nets, asc), eval_atom(it["r"], nets, asc)
                 assert len(lb) == len(rb)
                 D["assigns"].append([len(lb), sorted(zip(lb, rb), key=repr)])
                 for c in expr_consts(it["r"]) + expr_consts(it["l"]):
@@ -632,18 +647,22 @@ def denote(design):
             if tgt is not None:
                 pw = {p["name"]: p["w"] for p in tgt["ports"]}
                 porder = [p["name"] for p in tgt["ports"]]
+                pasc = set(tgt.get("asc", ()))
             else:
                 pw = bb[it["mod"]]
                 porder = None
+                pasc = set()
             pins = {pn: [None] * w for pn, w in pw.items()}
             for idx, (pn, e) in enumerate(it["conns"]):
                 if it["map"] == "pos":
                     pn = porder[idx]
-                bits = eval_expr(e, nets)
+                bits = eval_expr(e, nets, asc)
                 assert len(bits) <= pw[pn], "expression wider than the port"
                 for k, b in enumerate(reversed(bits)):
-                    assert pins[pn][k] is None
-                    pins[pn][k] = b
+                    # bit k from the least significant end of the port: pin k, or pin w-1-k of an ascending port
+                    kk = pw[pn] - 1 - k if pn in pasc else k
+                    assert pins[pn][kk] is None
+                    pins[pn][kk] = b
                 for c in expr_consts(e):
                     D["cables"][CONST_NAME[c]] = [0, 1]
             D["insts"][it["name"]] = {"ref": it["mod"], "params": dict((k, v) for k, v in it["params"]),
